@@ -443,6 +443,15 @@ func transportError(v ssa.Value, depth int) bool {
 		return transportError(x.X, depth+1)
 	case *ssa.ChangeInterface:
 		return transportError(x.X, depth+1)
+	case *ssa.Call:
+		// a transport error wrapped with context (fmt.Errorf("…: %w", err) or a repo helper)
+		if returnsError(x) {
+			for _, a := range argsDeep(&x.Call) {
+				if typeStr(a.Type()) == "error" && transportError(a, depth+1) {
+					return true
+				}
+			}
+		}
 	}
 	return false
 }
